@@ -253,6 +253,7 @@ func init() {
 		}
 		return Ite(Lt(a[0], a[1]), IntLit(-1), Ite(Eq(a[0], a[1]), IntLit(0), IntLit(1)))
 	}}
+	models["strings.Compare"] = models["cmp.Compare"]
 	models["math.Max"] = &Model{Assumption: "A-MATH", Apply: func(e *Exec, f *ssa.Function, c *ssa.CallCommon, args []Val) Val {
 		a := e.targs(c, args)
 		return Ite(Le(a[0], a[1]), a[1], a[0])
